@@ -31,156 +31,6 @@ type Case struct {
 
 func ip(i int) *int { return &i }
 
-func lit(v *model.Value) *ref.E { return &ref.E{Op: "lit", Lit: v.JSON()} }
-
-func pipe(a, b *ref.E) *ref.E {
-	if a == nil || a.Op == "self" {
-		return b
-	}
-	if b == nil || b.Op == "self" {
-		return a
-	}
-	return &ref.E{Op: "pipe", A: []*ref.E{a, b}}
-}
-
-// pathTo returns traversal expressions from root to every container node.
-func containerPaths(root *model.Value) (paths []*ref.E, nodes []*model.Value) {
-	var walk func(v *model.Value, p *ref.E)
-	walk = func(v *model.Value, p *ref.E) {
-		if v.K == model.Seq || v.K == model.Map {
-			paths = append(paths, p)
-			nodes = append(nodes, v)
-		}
-		switch v.K {
-		case model.Seq:
-			for i, e := range v.Elem {
-				walk(e, pipe(p, &ref.E{Op: "idx", I: ip(i)}))
-			}
-		case model.Map:
-			for i, e := range v.Vals {
-				if strings.ContainsAny(v.Keys[i], "*?") {
-					continue
-				}
-				walk(e, pipe(p, &ref.E{Op: "key", S: v.Keys[i], J: ip(1)}))
-			}
-		}
-	}
-	walk(root, &ref.E{Op: "self"})
-	return
-}
-
-func safeStr(s string) bool {
-	for _, r := range s {
-		if r < 0x20 || r == '"' || r == '\\' || r == 0x7f || r == '*' || r == '?' {
-			return false
-		}
-	}
-	return true
-}
-
-func genPred(t *rapid.T, sample *model.Value) *ref.E {
-	self := &ref.E{Op: "self"}
-	lhs := self
-	target := sample
-	if sample != nil && sample.K == model.Map && len(sample.Keys) > 0 {
-		k := rapid.SampledFrom(sample.Keys).Draw(t, "pk")
-		if safeStr(k) {
-			lhs = &ref.E{Op: "key", S: k, J: ip(1)}
-			target, _ = sample.Get(k)
-		}
-	}
-	bin := func(op string, r *ref.E) *ref.E { return &ref.E{Op: "bin", S: op, A: []*ref.E{lhs, r}} }
-	switch {
-	case target != nil && target.K == model.Int:
-		return bin(rapid.SampledFrom([]string{"==", "!=", "<", ">", "<=", ">="}).Draw(t, "pop"), lit(target))
-	case target != nil && target.K == model.Str && safeStr(target.S):
-		return bin(rapid.SampledFrom([]string{"==", "!="}).Draw(t, "pop"), lit(target))
-	case target != nil && target.K == model.Null:
-		return bin("==", lit(model.NewNull()))
-	}
-	return &ref.E{Op: "bin", S: ">", A: []*ref.E{pipe(lhs, &ref.E{Op: "length"}), lit(model.NewInt(int64(rapid.IntRange(0, 2).Draw(t, "pl"))))}}
-}
-
-func genDerivation(t *rapid.T, c *model.Value, labels *[]string) *ref.E {
-	if c.K != model.Seq {
-		if rapid.IntRange(0, 3).Draw(t, "mapd") == 0 {
-			*labels = append(*labels, "f:map_plus")
-			return &ref.E{Op: "bin", S: "+", A: []*ref.E{{Op: "self"}, {Op: "object", KS: []string{"zz"}, A: []*ref.E{lit(model.NewInt(7))}}}}
-		}
-		*labels = append(*labels, "f:identity")
-		return &ref.E{Op: "self"}
-	}
-	n := len(c.Elem)
-	one := func() *ref.E {
-		switch rapid.IntRange(0, 11).Draw(t, "dk") {
-		case 0:
-			*labels = append(*labels, "f:identity")
-			return &ref.E{Op: "self"}
-		case 1:
-			*labels = append(*labels, "f:sort")
-			return &ref.E{Op: "sort"}
-		case 2:
-			*labels = append(*labels, "f:reverse")
-			return &ref.E{Op: "reverse"}
-		case 3:
-			*labels = append(*labels, "f:slice")
-			e := &ref.E{Op: "slice"}
-			if rapid.Bool().Draw(t, "sopen") {
-				e.I = ip(rapid.IntRange(0, n).Draw(t, "s1"))
-			} else {
-				e.I = ip(rapid.IntRange(0, n).Draw(t, "s1"))
-				e.J = ip(rapid.IntRange(-n, n).Draw(t, "s2"))
-			}
-			return e
-		case 4:
-			*labels = append(*labels, "f:map")
-			return &ref.E{Op: "map", A: []*ref.E{{Op: "self"}}}
-		case 5:
-			*labels = append(*labels, "f:filter")
-			var s *model.Value
-			if n > 0 {
-				s = c.Elem[rapid.IntRange(0, n-1).Draw(t, "fs")]
-			}
-			return &ref.E{Op: "filter", A: []*ref.E{genPred(t, s)}}
-		case 6:
-			*labels = append(*labels, "f:plus")
-			extra := &ref.E{Op: "collect", A: []*ref.E{{Op: "union", A: []*ref.E{lit(model.NewInt(901)), lit(model.NewInt(902))}}}}
-			if rapid.Bool().Draw(t, "pfront") {
-				return &ref.E{Op: "bin", S: "+", A: []*ref.E{extra, {Op: "self"}}}
-			}
-			return &ref.E{Op: "bin", S: "+", A: []*ref.E{{Op: "self"}, extra}}
-		case 7:
-			*labels = append(*labels, "f:collect_select")
-			var s *model.Value
-			if n > 0 {
-				s = c.Elem[rapid.IntRange(0, n-1).Draw(t, "fs")]
-			}
-			return &ref.E{Op: "collect", A: []*ref.E{pipe(&ref.E{Op: "splat"}, &ref.E{Op: "select", A: []*ref.E{genPred(t, s)}})}}
-		case 8:
-			*labels = append(*labels, "f:unique")
-			return &ref.E{Op: "unique"}
-		case 9:
-			*labels = append(*labels, "f:flatten")
-			return &ref.E{Op: "flatten", I: ip(1)}
-		case 10:
-			*labels = append(*labels, "f:sort_by")
-			if n > 0 && c.Elem[0].K == model.Map && len(c.Elem[0].Keys) > 0 && safeStr(c.Elem[0].Keys[0]) {
-				return &ref.E{Op: "sort_by", A: []*ref.E{{Op: "key", S: c.Elem[0].Keys[0], J: ip(1)}}}
-			}
-			return &ref.E{Op: "sort_by", A: []*ref.E{{Op: "self"}}}
-		default:
-			*labels = append(*labels, "f:minus")
-			return &ref.E{Op: "bin", S: "-", A: []*ref.E{{Op: "self"}, {Op: "collect", A: []*ref.E{lit(model.NewInt(424242))}}}}
-		}
-	}
-	f := one()
-	if rapid.IntRange(0, 3).Draw(t, "two") == 0 {
-		f = pipe(f, one())
-		*labels = append(*labels, "f:composed")
-	}
-	return f
-}
-
 // genSelection generates a selection over value v (the value del is applied to).
 func genSelection(t *rapid.T, v *model.Value, labels *[]string) *ref.E {
 	n := len(v.Elem)
@@ -191,7 +41,7 @@ func genSelection(t *rapid.T, v *model.Value, labels *[]string) *ref.E {
 		}
 		if len(v.Keys) > 0 {
 			k := rapid.SampledFrom(v.Keys).Draw(t, "sk")
-			if safeStr(k) {
+			if gen.SafeStr(k) {
 				return &ref.E{Op: "key", S: k, J: ip(1)}
 			}
 		}
@@ -220,7 +70,7 @@ func genSelection(t *rapid.T, v *model.Value, labels *[]string) *ref.E {
 			s = v.Vals[rapid.IntRange(0, len(v.Vals)-1).Draw(t, "ps")]
 		}
 		*labels = append(*labels, "splat_select")
-		return pipe(&ref.E{Op: "splat"}, &ref.E{Op: "select", A: []*ref.E{genPred(t, s)}})
+		return gen.Pipe(&ref.E{Op: "splat"}, &ref.E{Op: "select", A: []*ref.E{gen.Pred(t, s)}})
 	case 4: // recursive descent + predicate
 		var all []*model.Value
 		v.Walk(func(x *model.Value) {
@@ -233,21 +83,21 @@ func genSelection(t *rapid.T, v *model.Value, labels *[]string) *ref.E {
 			s = all[rapid.IntRange(0, len(all)-1).Draw(t, "rs")]
 		}
 		*labels = append(*labels, "rdesc_select")
-		return pipe(&ref.E{Op: "rdesc"}, &ref.E{Op: "select", A: []*ref.E{genPred(t, s)}})
+		return gen.Pipe(&ref.E{Op: "rdesc"}, &ref.E{Op: "select", A: []*ref.E{gen.Pred(t, s)}})
 	case 5: // nested path
-		paths, nodes := containerPaths(v)
+		paths, nodes := gen.ContainerPaths(v)
 		if len(paths) > 1 {
 			i := rapid.IntRange(1, len(paths)-1).Draw(t, "np")
 			inner := genSelection(t, nodes[i], labels)
 			*labels = append(*labels, "nested_path")
-			return pipe(paths[i], inner)
+			return gen.Pipe(paths[i], inner)
 		}
 		return &ref.E{Op: "splat"}
 	case 6: // a victim inside another victim
 		if v.K == model.Seq && n > 0 {
 			i := rapid.IntRange(0, n-1).Draw(t, "ni")
 			*labels = append(*labels, "nested_victims")
-			return &ref.E{Op: "union", A: []*ref.E{pipe(&ref.E{Op: "idx", I: ip(i)}, &ref.E{Op: "splat"}), {Op: "idx", I: ip(i)}}}
+			return &ref.E{Op: "union", A: []*ref.E{gen.Pipe(&ref.E{Op: "idx", I: ip(i)}, &ref.E{Op: "splat"}), {Op: "idx", I: ip(i)}}}
 		}
 		return &ref.E{Op: "splat"}
 	default:
@@ -270,15 +120,15 @@ func printDel(sels []*ref.E) string {
 func genCase(t *rapid.T) Case {
 	doc := gen.JSONDoc(t, gen.DocOpts{Depth: 3, Width: 5, Distinct: rapid.IntRange(0, 4).Draw(t, "distinct") > 0, NoFloats: true, SimpleStr: true})
 	var labels []string
-	paths, nodes := containerPaths(doc)
+	paths, nodes := gen.ContainerPaths(doc)
 	var pre *ref.E = &ref.E{Op: "self"}
 	target := doc
 	if len(paths) > 0 {
 		i := rapid.IntRange(0, len(paths)-1).Draw(t, "at")
 		pre, target = paths[i], nodes[i]
 	}
-	f := genDerivation(t, target, &labels)
-	pre = pipe(pre, f)
+	f := gen.Derivation(t, target, &labels)
+	pre = gen.Pipe(pre, f)
 	// V as the reference sees it, to fit the selection to it
 	var v *model.Value
 	if r, err := ref.Eval(pre, []*model.Value{doc}, ref.Env{}); err == nil && len(r) == 1 {
